@@ -184,6 +184,7 @@ class InventoryFileReader:
         self.stream = stream
         self.buffer = b""
         self.eof = False
+        self._compressed_eof = False
 
     def read_buffer(self) -> None:
         chunk = self.stream.read(_BUFSIZE)
@@ -218,6 +219,7 @@ class InventoryFileReader:
             yield decompressor.decompress(self.buffer)
             self.buffer = b""
         yield decompressor.flush()
+        self._compressed_eof = decompressor.eof
 
     def read_compressed_lines(self) -> Iterator[str]:
         buf = b""
@@ -228,6 +230,9 @@ class InventoryFileReader:
                 yield buf[:pos].decode()
                 buf = buf[pos + 1 :]
                 pos = buf.find(b"\n")
+        if buf and self._compressed_eof:
+            # the last line of a complete stream may lack a trailing newline
+            yield buf.decode()
 
 
 @functools.lru_cache(maxsize=256)
